@@ -3,7 +3,10 @@
    segments), one event per upload, observed at the quiescent point after the `process` hook event.
    Events:
      hdr   {hid, class, tsbd, masterTs, masterDur, initWindow, unshifted, names:[track], tracks:[{name, ts, late}]}
-     up    {i, track, kind: "init"|"media", n, status (-1: not answered), dts, dur, h (digest of the uploaded bytes),
+     up    {i, track, kind: "init"|"media", n (logical number of the history), nin (the encoder's number), sn / sdts (the number and
+            decode time the segment must be stored under: = n / dts on an unshifted channel, else renumbered to time / duration
+            and re-timed by the driver's own arithmetic, harness/drive/c17/shift.go), bx (stored bytes = uploaded bytes expected),
+            status (-1: not answered), dts, dur, h (digest of the uploaded bytes),
             processed (the complete `process` event of this upload arrived), files: {track: [{n, h}]} (directory listings),
             cut (0 | 1 | 2: the body broke inside the first / a later fragment), frags,
             (files entries also carry the driver's own decoding of the stored file: ok, dts, dur, fr)
@@ -33,10 +36,11 @@ Hdr == /\ e.ev = "hdr"
 
 Up == /\ e.ev = "up"
       /\ LET accepted == e.kind = "media" /\ e.status = 200
-             u    == [t |-> e.track, n |-> e.n, dts |-> e.dts, dur |-> e.dur, h |-> e.h]
-             upl1 == IF accepted THEN {x \in upl : ~(x.t = e.track /\ x.n = e.n)} \cup {u} ELSE upl
-             tried1 == IF e.kind = "media" THEN tried \cup {[t |-> e.track, n |-> e.n]} ELSE tried
-             missing == NotStored(upl1, tried1, e.files, MaxBuf, H.unshifted)
+             \* sn / sdts: the number and decode time the segment is stored under (= n / dts on an unshifted channel)
+             u    == [t |-> e.track, n |-> e.sn, dts |-> e.sdts, dur |-> e.dur, h |-> e.h, bx |-> e.bx]
+             upl1 == IF accepted THEN {x \in upl : ~(x.t = e.track /\ x.n = e.sn)} \cup {u} ELSE upl
+             tried1 == IF e.kind = "media" THEN tried \cup {[t |-> e.track, n |-> e.sn]} ELSE tried
+             missing == NotStored(upl1, tried1, e.files, MaxBuf)
              W    == IF e.hook.started THEN Window ELSE H.initWindow
              pub  == e.mpd.state = "new" /\ e.mpd.ok
              b    == IF pub /\ Len(e.mpd.as) > 0 THEN NewestListed(e.mpd.as) ELSE lastB
